@@ -22,6 +22,8 @@ RUN_STEP_BUDGET = 600000
 
 
 def r_hp(rng, maxdeg):
+    if rng.random() < 0.05:
+        return rng.choice([2.5e-05, -2.5e-05, 5e-06, 0.0])      # HP values below one arc-second
     d = rng.randrange(0, maxdeg + 1)
     m = rng.randrange(0, 60)
     s = round(rng.uniform(0, 59.9999), rng.choice([0, 1, 3, 4]))
@@ -32,6 +34,9 @@ def r_hp(rng, maxdeg):
 
 
 def r_dec(rng, maxdeg):
+    if rng.random() < 0.06:
+        # tiny magnitudes: repr() of these floats uses exponent notation ('5e-05')
+        return rng.choice([5e-05, -2.5e-05, 1e-07, -9.9e-05, 3.3e-06, 0.0, -0.0])
     k = rng.randrange(3)
     x = rng.uniform(-maxdeg, maxdeg)
     if k == 0:
